@@ -242,7 +242,7 @@ impl Config { #[verifier::external_body] pub fn get_target_path_set(&self) -> Ha
     ensures r matches Ok(o) ==> o.checkpointed == (changes is Some) && (changes is None ==> o.all_targets),
         r matches Ok(o) ==> o.from_changes == (match changes { Some(v) => Some(change_names(v@)), None => None }),
 { unimplemented!() }
-//!fn src/app/analyze.rs handle_analyze rules=R1,R10,R12 props=C19,C02,C07
+//!fn src/app/analyze.rs handle_analyze rules=R1,R10,R12 props=C19,C02,C07,C01,C05,C09
 pub(crate) async fn handle_analyze<'a>(
     cfg: &'a core::Config,
     input: &HandleAnalyzeInput<'a>,
@@ -252,7 +252,8 @@ pub(crate) async fn handle_analyze<'a>(
 @        // C19: without a checkpoint (never written, deleted, or removed with the output directory) `analyze` reports checkpointed=false
 @        // together with every configured target - whatever interval or other options were given; with one, checkpointed=true
 @        res matches Ok(o) ==> (old(w).cp_file is None ==> !o.checkpointed && o.all_targets), // [C19]
-@        res matches Ok(o) ==> (old(w).cp_file is Some ==> o.checkpointed), // [C19]
+@        // (C01 / C05: a checkpoint that exists but cannot be read is an error - `analyze` never falls back to "no checkpoint")
+@        res matches Ok(o) ==> (old(w).cp_file is Some ==> o.checkpointed), // [C19,C01,C05]
 @        // C02 / C07: with a checkpoint, what is analyzed is the change provider's answer for the requested interval and THE STORED
 @        // checkpoint - its commit and its pending map, whatever options were given (an explicit --begin replaces the commit, never the
 @        // pending map)
